@@ -100,7 +100,7 @@ class VariableProjection(Contract):
         "scipy.linalg.lapack.dgeqrf: A = Q·[R;0], Q orthogonal, R upper triangular and invertible for full column rank; input untouched unless overwrite_a",
         "scipy.linalg.lapack.dormqr('L','T',qr,tau,c) = Q^T c ; dormqr('L','N',qr,tau,c) = Q c ; c untouched unless overwrite_c",
         "scipy.linalg.lapack.dtrtrs(qr, b): x[:n] solves R x[:n] = b[:n], x[n:] = b[n:]",
-        "lemma (linear algebra, stated): O1-O5 with the LAPACK contracts imply A^T·residual = 0 and clp minimises ||b - A·clp||",
+        "the step from O1-O5 + the LAPACK contracts to `A^T·residual = 0` and `clp minimises ||b - A·clp||` is the Lean theorem PyVC.vp_minimises (lemmas/LeastSquares.lean, all m, n; re-checked every run), its hypotheses being exactly the discharged obligations O3, O5, residual_is_data_minus_matrix_times_clp and Q^T Q = 1 from the dgeqrf contract",
     )
     strength = "S"
     agreement_runs = 0
@@ -258,7 +258,10 @@ class Nnls(Contract):
     name = "Nnls"
     target = "glotaran.optimization.nnls:residual_nnls"
     modules = MODS
-    trusted = ("scipy.optimize.nnls(A, b) returns (x, rnorm) with x >= 0 satisfying the KKT conditions of min ||A x - b|| s.t. x >= 0",)
+    trusted = (
+        "scipy.optimize.nnls(A, b) returns (x, rnorm) with x >= 0 satisfying the KKT conditions of min ||A x - b|| s.t. x >= 0",
+        "that a KKT point is a minimiser over x >= 0 is the Lean theorem PyVC.nnls_kkt_optimal (lemmas/LeastSquares.lean, all m, n; re-checked every run)",
+    )
     strength = "S"
     agreement_runs = 0
 
@@ -372,7 +375,7 @@ class OptimalityLemmaSmall(Contract):
     target = "glotaran.optimization.variable_projection:residual_variable_projection"
     strength = "S"
     agreement_runs = 0
-    trusted = ("for sizes beyond (2,1) the optimality lemma stays a stated, not machine-checked, fact (entry-wise orthogonality constraints exceed nlsat)",)
+    trusted = ("z3 cross-check of the statement proved in Lean, at the sizes nlsat can bear ((2,2) and (3,1) are `unknown`); the general proof is OptimalityLemmas",)
 
     def cases(self, tier):
         yield {"m": 1, "n": 1}
@@ -406,3 +409,36 @@ class OptimalityLemmaSmall(Contract):
         rp = [b[i] - L.sum([A[i][j] * cp[j] for j in range(n)]) for i in range(m)]
         yield "residual_orthogonal_to_every_column", L.and_(*[L.eq(L.sum([A[i][j] * res[i] for i in range(m)]), 0.0) for j in range(n)])
         yield "no_other_clp_gives_a_smaller_residual_norm", L.ge(L.sum([x * x for x in rp]), L.sum([x * x for x in res]))
+
+
+class OptimalityLemmas(Contract):
+    """The mathematics between the glue-code obligations and the property, proved for every m and n in
+    Lean 4 + Mathlib (`lemmas/LeastSquares.lean`) and re-checked by `lean` on every run:
+
+    * `vp_minimises`: Q^T Q = 1, [R;0]^T temp = 0 (O5), residual = Q temp (O3 + dormqr contract) and
+      residual = b - A clp with A = Q [R;0]  imply  ||b - A clp|| <= ||b - A x|| for every x
+      (through `vp_orthogonal_of_q_coordinates`: A^T residual = 0);
+    * `nnls_kkt_optimal`: w = A^T (b - A x) <= 0 and x_j w_j = 0  imply  ||b - A x|| <= ||b - A y|| for every y >= 0.
+    """
+
+    prop = "C01"
+    name = "OptimalityLemmas"
+    target = None
+    strength = "U"
+    trusted = ("Lean 4.33 kernel and Mathlib (definitions of Matrix.mulVec, dotProduct, transpose); axioms propext, Classical.choice, Quot.sound",)
+
+    def cases(self, tier):
+        return iter(())
+
+    def static_obligations(self, tier):
+        from pathlib import Path
+
+        from pyvc.lean import check_lemmas
+
+        return check_lemmas(
+            Path(__file__).resolve().parent.parent / "lemmas" / "LeastSquares.lean",
+            {
+                "PyVC.vp_minimises": "lemma_orthogonal_residual_in_q_coordinates_minimises_for_all_m_n",
+                "PyVC.nnls_kkt_optimal": "lemma_kkt_point_minimises_over_nonnegative_clp_for_all_m_n",
+            },
+        )
